@@ -161,6 +161,10 @@ class RefAsm:
         for s in scope.chain():
             if name in s.ct:
                 return s.ct[name]
+            if name in s.defs or name in s.code:
+                # the innermost definition of the name is not an expansion-time value (label, `=`, deferred
+                # parameter, loop variable): an outer constant of the same spelling must NOT shine through
+                raise Undefined(name)
         raise Undefined(name)
 
     def ct_eval(self, e, scope):
